@@ -261,6 +261,7 @@ type world struct {
 	proxyRst  *c.ProxyWorld // upstream resets every connection
 	proxySlow *c.ProxyWorld // upstream slower than the upstream's timeout (150ms)
 	proxySec  *c.ProxyWorld // cookie_secure = true
+	proxyRwRefuse, proxyRwRst, proxyRwSlow *c.ProxyWorld // rewrite-route upstreams with a failing round trip
 	nNotes    int
 	ctlT    *authWorld     // like ctlA, behind http.TimeoutHandler with a 150ms request timeout
 	pHandlers map[*c.ProxyWorld]http.Handler
@@ -896,6 +897,16 @@ func main() {
 	}
 	w.proxyRst = mk(strings.TrimPrefix(rst.URL, "http://"), "")
 	w.proxySlow = mk(strings.TrimPrefix(slow.URL, "http://"), "      timeout: 150ms\n")
+	// rewrite routes: one service for a family of hosts, the start of the host is free
+	rw := func(to string) *c.ProxyWorld {
+		y := "- service: tenant\n  default:\n    from: ^(.*)\\.apps\\.example\\.test$\n    to: " + to + "\n    type: rewrite\n    options:\n      allowed_email_domains: [\"corp.test\"]\n      skip_auth_regex: [\"^/open\"]\n      timeout: 150ms\n"
+		p, err := c.BuildProxy(c.ProxyOpts{YAML: y, Valid: time.Hour, Dir: dir}, fake)
+		c.Must(err)
+		return p
+	}
+	w.proxyRwRefuse = rw(closedAddr)
+	w.proxyRwRst = rw(strings.TrimPrefix(rst.URL, "http://"))
+	w.proxyRwSlow = rw(strings.TrimPrefix(slow.URL, "http://"))
 	// cookie_secure (the default of the binary): plain-http requests are upgraded by requireHTTPS
 	w.proxySec, err = c.BuildProxy(c.ProxyOpts{YAML: up("svc", proxyHost), Valid: time.Hour, Dir: dir, CookieSecure: true}, fake)
 	c.Must(err)
